@@ -216,7 +216,14 @@ extern "C"
     {
         QItem it{prod, seq};
         h_push_begin(prod, seq);
-        ((igris::safe_queue<QItem> *)q)->push(it);
+        // the item is handed over as a named object, as a temporary, or moved from: all three are one push
+        auto *sq = (igris::safe_queue<QItem> *)q;
+        switch ((prod + seq) % 3)
+        {
+        case 0: sq->push(it); break;
+        case 1: sq->push(QItem{prod, seq}); break;
+        default: sq->push(std::move(it)); break;
+        }
         h_push_end(prod, seq);
     }
     void prog_queue_pop(void *q)
